@@ -99,7 +99,11 @@ theorem written_publish_waits_for_ack (e : Engine) (id : Nat) (o : Op) (p : Publ
     (hc : e.current = some id) (ho : e.op? id = some o) (hp : o.packet = .publish p) (hq : p.qos ≠ 0) :
     ∃ e', e.onFullyWritten = some e' ∧ e'.pendingPub.lookup p.packetId = some id ∧ e'.current = none ∧
       e'.userQ = e.userQ ∧ e'.resubQ = e.resubQ ∧ e'.highQ = e.highQ := by
-  simp only [Engine.onFullyWritten, Engine.fileWritten, hc, ho, hp, hq, ↓reduceIte]
+  have harm : ∀ en : Engine, en.armPingDeadline o = en := by
+    intro en; unfold Engine.armPingDeadline; rw [hp]
+  simp only [Engine.onFullyWritten, hc, ho]
+  rw [harm]
+  simp only [Engine.fileWritten, hp, hq, ↓reduceIte]
   refine ⟨_, rfl, ?_⟩
   simp only [Engine.startAckTimeout]
   split <;> simp [Engine.setOp, lookup_mapInsert_self]
